@@ -207,7 +207,20 @@ func propC18(e *Env) {
 	for i := 0; i < nact && !e.Failed(); i++ {
 		f := filepath.Join(root, c18Files[e.Choose("gen", len(c18Files))])
 		var desc string
-		switch e.Choose("gen", 7) {
+		switch e.Choose("gen", 8) {
+		case 7: // deleted, its stream notices and ends, and a new file appears under the name — all between two pattern polls
+			if fi, err := os.Lstat(f); err == nil && fi.Mode().IsRegular() {
+				os.Remove(f)
+				r.sw.Tick()
+				if !r.quiesce() {
+					return
+				}
+				mustWrite(f, "", os.O_CREATE|os.O_WRONLY|os.O_EXCL)
+				desc = "delete " + rel(root, f) + ", stream poll, re-create"
+				e.Probe("recreate_between_pattern_polls")
+			} else {
+				desc = "nop"
+			}
 		case 0, 1: // create (file, or a directory whose name matches a file pattern)
 			if strings.HasSuffix(f, "d.log") {
 				if os.Mkdir(f, 0o755) == nil {
